@@ -84,7 +84,20 @@ type smallWorld struct {
 	maxBatch  int
 }
 
-func valueBytes(c int) []byte { return []byte(fmt.Sprintf("value-%d", c)) }
+// valueBytes maps a value code to bytes. Besides ordinary short values the alphabet holds the shapes a
+// commitment scheme can get wrong: code 2 is exactly 32 bytes long AND is the SHA-256 of value 1 (a value
+// that looks like a digest; {k: v1} and {k: v2} must still have different roots), code 3 is the empty
+// value (the state machine stores keys with empty values: committee / delegate membership keys).
+func valueBytes(c int) []byte {
+	switch c {
+	case 2:
+		h := sha256.Sum256([]byte("value-1"))
+		return h[:]
+	case 3:
+		return []byte{}
+	}
+	return []byte(fmt.Sprintf("value-%d", c))
+}
 
 // setKey renders a state (value code per key, 0 = absent).
 func setKey(st []uint8) string { return string(st) }
